@@ -20,8 +20,30 @@ merge_and_compress_summaries -> process_val_weights) directly, on random
 columns; the returned divisions must be non-decreasing, first <= min(data) and
 last >= max(data) (min/max computed by pandas on the source column).
 
+Facet 3 (parameter audit): the planner as ``from_pandas`` applies it.  ``dd.from_pandas(frame, npartitions=k |
+chunksize=c, sort=True|False)`` on an index of the generated values (int, RangeIndex, float, str, datetime, tz-aware
+datetime, timedelta, bool, uint8, nullable Int64, ordered categorical; with duplicates; sorted, shuffled or reversed;
+DataFrame or Series).  Read off the published divisions and the partitions of the graph: every partition holds rows and
+all rows are there in index order (locations strictly increase from 0 to len), ``divisions[i]`` is the first index value
+of partition i and the last division the last value, no index value ends one partition and starts the next, and with
+``npartitions=k`` and at least k distinct index values exactly k partitions come back.  ``sort=False`` on an unsorted
+index: all divisions are None as documented (nothing else is demanded); ``sort=False`` on a monotonic index: checked like
+``sort=True`` when divisions are published (the implementation plans them), not demanded when they are None.
+
+Parameter audit, other additions: sdl value types bool / timedelta / uint8 / nullable Int64 / tz-aware timestamps /
+ordered categorical, multiplicity shapes "singletons in front, one long run at the end" and its mirror image; quantile
+columns bool, nullable Int64 (no NA), ordered categorical whose category order differs from the lexical one (divisions
+are compared in category order), uint8, int8, float32, timedelta, tz-aware timestamps east and west of UTC,
+datetime64[s], integers beyond 2**53 (int64 near both ends, uint64 above 2**63); ``set_index`` given the column as a name,
+a one-element list or a Series.
+
 Calibration
 -----------
+* columns holding +-inf are not generated: ``pandas.Series.quantile`` (the arithmetic the summaries are built from)
+  itself returns NaN for every quantile of such a column, q=0 and q=1 included.
+* unordered categoricals are not generated for the quantile facet: pandas defines no min/max for them.
+* categorical INDEX values for sdl / from_pandas use categories in lexical order, so that the order of the dtype and the
+  order of the plain values that ``tolist`` hands to the planner agree (the statement speaks of a sorted sequence).
 * ``sorted_division_locations`` takes ndarray / pd.Index / pd.Series (it goes
   through ``tolist`` dispatch), not plain lists: only those containers are
   generated.  A ``datetime64[ns]`` *ndarray* is turned into integers by
@@ -50,15 +72,18 @@ RULE = ("facet sdl: cases = sorted sequences; ALL sorted sequences of length 1..
         "(thorough: 1..11 over 5 letters), each as str and as int values, each passed as np.ndarray, pd.Index and "
         "pd.Series with every npartitions and every chunksize in 1..len+1; then random longer sequences (ints, floats, "
         "strings, timestamps, heavy duplicates, length 9..1500) with sampled npartitions/chunksize around the number "
-        "of distinct values.  facet quantile: random columns (int with duplicates, wide int, float, float with "
-        "duplicates, str, datetime; random/sorted/reversed/blocked order; outliers) -> from_pandas(k).set_index(col"
-        "[, npartitions, upsample]) and Series._repartition_quantiles(m, upsample, random_state).  non-trivial = "
+        "of distinct values (also bool, timedelta, uint8, Int64, tz-aware, ordered categorical).  facet quantile: random "
+        "columns (int with duplicates, wide int, float, float with duplicates, str, datetime, bool, Int64, ordered "
+        "categorical, uint8, int8, float32, timedelta, tz-aware, datetime64[s], integers beyond 2**53; random/sorted/"
+        "reversed/blocked order; outliers) -> from_pandas(k).set_index(col as name | [name] | Series[, npartitions, "
+        "upsample]) and Series._repartition_quantiles(m, upsample, random_state).  facet from_pandas: index of the same "
+        "value types (sorted / shuffled / reversed, duplicates) x npartitions | chunksize x sort on/off.  non-trivial = "
         "length >= 2; distinct = distinct (values, container, mode) resp. (column description, call parameters)")
 ASSUMPTIONS = [
     "pandas/numpy define min/max and == of the generated values; the harness list of values is the reference sequence",
     "dask.dataframe is imported through the pyarrow import stub (pandas-backed strings, convert-string=False)",
 ]
-BUDGET = {"quick": 30, "thorough": 480}
+BUDGET = {"quick": 60, "thorough": 540}
 FLOORS = {
     "quick": {"evaluations": 4000, "distinct_nontrivial": 3800,
               "counters": {"sdl_calls": 55000, "sdl_npartitions_calls": 27000, "sdl_chunksize_calls": 27000,
@@ -86,11 +111,13 @@ CLAIM = ("Every call of sorted_division_locations on the generated sorted sequen
          "floats, strings and timestamps with heavy duplicates) satisfied the four rules of the statement, checked by "
          "the harness on its own copy of the values; every set of quantile-based divisions produced by set_index "
          "without divisions and by the RepartitionQuantiles expression on random columns was non-decreasing and "
-         "spanned the column's pandas min/max.  Held means: no counterexample among the executions observed.")
+         "spanned the column's pandas min/max; the divisions and partitions of every from_pandas call on the generated "
+         "indexes obeyed the same four rules.  Held means: no counterexample among the executions observed.")
 LEVEL_NOTE = ("trusts Python/pandas equality and ordering of the generated scalars and pandas min/max; "
               "Arrow-backed strings are not exercised (pyarrow stub)")
 TECHNIQUE = ("runtime monitoring: post-condition contract on every real sorted_division_locations call "
-             "(complete small space + random) and on quantile divisions of set_index/RepartitionQuantiles")
+             "(complete small space + random), on the divisions/partitions of from_pandas, and on quantile divisions of "
+             "set_index/RepartitionQuantiles")
 PENDING = {}
 
 LETTERS = "ABCDE"
@@ -118,22 +145,43 @@ def cases(tier, seed):
                 yield {"space": "exhaustive", "facet": "sdl", "letters": "".join(map(str, comb)), "vals": vals}
     nrand = 3000 if tier == "quick" else 40000
     nq = 5000 if tier == "quick" else 40000
-    # interleave the two random facets so that a truncated stream still has both
-    iq = 0
+    nfp = 2600 if tier == "quick" else 30000
+    # interleave the random facets so that a truncated stream still has all of them
+    iq = ifp = 0
     for i in range(nrand):
         n = rng.choice((9, 10, 12, 15, 20, 30, 50, 80, 120, 200, 400, rng.randint(9, 1500)))
-        yield {"facet": "sdl", "rand": True, "dtype": rng.choice(("int", "int", "float", "str", "ts", "negint")),
+        yield {"facet": "sdl", "rand": True, "dtype": rng.choice(SDL_DTYPES),
                "n": n, "nd": rng.choice((1, 2, 3, rng.randint(1, n), rng.randint(1, max(1, n // 4)), n)),
-               "skew": rng.choice((0, 0, 1, 2)), "dseed": rng.randrange(2 ** 31)}
+               "skew": rng.choice((0, 0, 1, 2, 3, 4)), "dseed": rng.randrange(2 ** 31)}
         while iq * nrand < (i + 1) * nq:
             iq += 1
             yield _quantile_case(rng)
+        while ifp * nrand < (i + 1) * nfp:
+            ifp += 1
+            yield _from_pandas_case(rng)
+
+
+SDL_DTYPES = ("int", "int", "float", "str", "ts", "negint", "bool", "td", "uint8", "Int64", "tzts", "cat")
+FP_DTYPES = ("int", "int", "range", "float", "str", "ts", "negint", "bool", "td", "uint8", "Int64", "tzts", "cat")
+
+
+def _from_pandas_case(rng):
+    """dd.from_pandas(frame, npartitions | chunksize, sort): the divisions it plans and the partitions it cuts"""
+    n = rng.choice((1, 2, 3, 4, 5, 6, 8, 12, 20, 40, 90, rng.randint(1, 300)))
+    nd = rng.choice((1, 2, 3, rng.randint(1, n), rng.randint(1, max(1, n // 3)), n, n))
+    by = rng.choice(("npartitions", "chunksize"))
+    # the count / size asked for: around the number of distinct values, small, and above the length
+    k = rng.choice((1, 2, 3, max(1, nd - 1), nd, nd + 1, max(1, nd // 2), max(1, n // 2), n, n + 1, rng.randint(1, n + 1)))
+    return {"facet": "from_pandas", "dtype": rng.choice(FP_DTYPES), "n": n, "nd": nd, "skew": rng.choice((0, 0, 1, 2, 3, 4)),
+            "order": rng.choice(("sorted", "sorted", "shuffled", "reversed")), "by": by, "k": k,
+            "sort": rng.choice((True, True, True, False)), "series": rng.random() < 0.15, "dseed": rng.randrange(2 ** 31)}
 
 
 def _quantile_case(rng):
     n = rng.choice((1, 2, 3, 5, 8, 13, 30, 60, 100, 200, rng.randint(1, 400)))
     return {"facet": "quantile",
-            "dtype": rng.choice(("intdup", "intdup", "intwide", "float", "floatdup", "str", "str", "dt", "dtdup")),
+            "dtype": rng.choice(Q_DTYPES),
+            "other": rng.choice(("name", "name", "series", "list")),
             "n": n, "parts_in": rng.choice((1, 2, 3, 4, 5, 7, 12, 20)),
             "order": rng.choice(("random", "random", "sorted", "sorted", "reversed", "blocks")),
             "outliers": rng.random() < 0.4,
@@ -144,16 +192,32 @@ def _quantile_case(rng):
             "dseed": rng.randrange(2 ** 31)}
 
 
+Q_DTYPES = ("intdup", "intdup", "intwide", "float", "floatdup", "str", "str", "dt", "dtdup",
+            "bool", "Int64", "catord", "uint8", "int8", "float32", "td", "tz", "tzwest", "inthuge", "uint64", "dts")
+
+
 # --------------------------------------------------------------------------- sdl facet
 def _container(ref, dtype, kind):
     import numpy as np
     import pandas as pd
 
-    if dtype == "ts":
-        idx = pd.DatetimeIndex(ref)
+    if dtype in ("ts", "tzts", "td", "Int64", "cat"):
+        if dtype == "td":
+            idx = pd.TimedeltaIndex(ref)
+        elif dtype == "Int64":
+            idx = pd.Index(pd.array(ref, dtype="Int64"))
+        elif dtype == "cat":
+            idx = pd.CategoricalIndex(ref, categories=sorted(set(ref)), ordered=True)
+        else:
+            idx = pd.DatetimeIndex(ref)
         if kind == "series":
             return pd.Series(idx, index=range(100, 100 + len(ref)))
-        return idx                      # 'ndarray' is mapped to DatetimeIndex (see Calibration)
+        return idx                      # 'ndarray' is mapped to the pandas Index (see Calibration)
+    if dtype == "uint8" and kind != "index":
+        arr = np.array(ref, dtype="uint8")
+        return arr if kind == "ndarray" else pd.Series(arr, index=range(100, 100 + len(ref)))
+    if dtype == "uint8":
+        return pd.Index(np.array(ref, dtype="uint8"))
     if kind == "ndarray":
         return np.array(ref, dtype=object) if dtype == "strobj" else np.array(ref)
     if kind == "index":
@@ -243,6 +307,23 @@ def _rand_sorted(case):
     if dt in ("int", "negint"):
         lo = -10 ** 6 if dt == "negint" else 0
         pool = rng.choice(np.arange(lo, lo + max(4 * nd, 10) * 7, 7), size=nd, replace=False).tolist()
+    elif dt == "bool":
+        pool = [False, True][:nd] if rng.random() < 0.8 else [True]
+    elif dt == "uint8":
+        pool = rng.choice(np.arange(0, 256), size=min(nd, 256), replace=False).tolist()
+    elif dt == "Int64":
+        pool = rng.choice(np.arange(-50, max(4 * nd, 10) * 3, 3), size=nd, replace=False).tolist()
+    elif dt == "td":
+        offs = rng.choice(np.arange(0, max(4 * nd, 10)), size=nd, replace=False)
+        unit = ["us", "s", "D"][int(rng.integers(0, 3))]
+        pool = [pd.Timedelta(int(o) - 3, unit=unit) for o in offs]
+    elif dt == "tzts":
+        base = pd.Timestamp("2021-03-27 22:00", tz=["Europe/Berlin", "US/Pacific", "Asia/Kolkata"][int(rng.integers(0, 3))])
+        offs = rng.choice(np.arange(0, max(4 * nd, 10)), size=nd, replace=False)
+        unit = ["s", "h", "D"][int(rng.integers(0, 3))]            # hours/days walk across the DST change of 28 March
+        pool = [base + pd.Timedelta(int(o), unit=unit) for o in offs]
+    elif dt == "cat":
+        pool = sorted({"c%03d" % int(v) for v in rng.choice(np.arange(0, max(4 * nd, 10)), size=nd, replace=False)})
     elif dt == "float":
         pool = set()
         for _ in range(30):                              # bounded: coarse rounding may not have nd distinct values
@@ -271,9 +352,13 @@ def _rand_sorted(case):
         w = np.ones(nd)
     elif case["skew"] == 1:
         w = 1.0 / (1 + rng.permutation(nd)) ** 1.5
-    else:
+    elif case["skew"] == 2:
         w = np.full(nd, 0.02 / nd)
         w[int(rng.integers(0, nd))] = 1.0
+    else:
+        # 3: singletons in front, one long run at the very end;  4: one long run first, singletons behind it
+        w = np.full(nd, 0.02 / nd)
+        w[-1 if case["skew"] == 3 else 0] = 1.0
     w = w / w.sum()
     if n >= nd:
         counts = np.ones(nd, dtype=int) + rng.multinomial(n - nd, w)
@@ -291,7 +376,7 @@ def _run_sdl_random(case, ctx):
 
     ref = _rand_sorted(case)
     n, nd = len(ref), len(set(ref))
-    dt = "ts" if case["dtype"] == "ts" else case["dtype"]
+    dt = case["dtype"]
     prng = random.Random(case["dseed"] ^ 0x5A5A)
     ctx.nontrivial = n >= 2
     ctx.sig = ("sdl-rand", case["dtype"], case["n"], case["nd"], case["skew"], case["dseed"])
@@ -334,6 +419,8 @@ def _column(case):
     elif dt == "str":
         m = int(rng.choice([2, 5, 30, 1000]))
         col = np.array(["k%04d" % x if x % 3 else "Z" * (x % 5) + "é%d" % x for x in rng.integers(0, m, n)], dtype=object)
+    elif dt in NEW_Q_DTYPES:
+        return _new_column(case, rng)
     else:
         m = 10 ** 6 if dt == "dt" else int(rng.choice([2, 6, 40]))
         col = (pd.Timestamp("1999-12-31 23:00") + pd.to_timedelta(rng.integers(0, m, n), unit="min")).values
@@ -368,10 +455,63 @@ def _column(case):
     return col
 
 
-def _check_divisions(ctx, api, feat, divs, lo, hi, detail):
+NEW_Q_DTYPES = ("bool", "Int64", "catord", "uint8", "int8", "float32", "td", "tz", "tzwest", "inthuge", "uint64", "dts")
+
+
+def _new_column(case, rng):
+    """value classes added by the parameter audit: small / unsigned / huge integers, bool, nullable, ordered categorical (category
+    order different from the lexical one), timedelta, tz-aware and second-resolution timestamps, infinities"""
+    import numpy as np
+    import pandas as pd
+
+    n, dt = case["n"], case["dtype"]
+    m = int(rng.choice([2, 6, 40, 10 ** 6]))
+    if dt == "bool":
+        col = pd.array(rng.random(n) < rng.choice([0.1, 0.5, 0.9]), dtype="bool")
+    elif dt == "Int64":
+        col = pd.array(rng.integers(-5, m, n), dtype="Int64")
+    elif dt == "catord":
+        cats = ["g", "f", "e", "d", "c", "b", "a", "Z", "é"][: int(rng.integers(2, 10))]
+        col = pd.Categorical(rng.choice(cats[: max(1, min(len(cats), m))], n), categories=cats + ["unused"], ordered=True)
+    elif dt == "uint8":
+        col = rng.integers(0, 256 if m > 40 else m, n).astype("uint8")
+    elif dt == "int8":
+        col = rng.integers(-128, 128, n).astype("int8") if m > 40 else rng.integers(-3, m, n).astype("int8")
+    elif dt == "float32":
+        col = rng.normal(0, 10.0 ** rng.integers(-3, 6), n).astype("float32")
+    elif dt == "td":
+        col = pd.array(pd.to_timedelta(rng.integers(-5, m, n), unit=["s", "min", "D"][int(rng.integers(0, 3))]))
+    elif dt in ("tz", "tzwest"):
+        zone = {"tz": ["Europe/Berlin", "Asia/Kolkata"], "tzwest": ["US/Pacific", "America/Sao_Paulo"]}[dt][int(rng.integers(0, 2))]
+        col = pd.array(pd.Timestamp("2021-03-27 21:00", tz=zone) + pd.to_timedelta(rng.integers(0, m, n), unit="min"))
+    elif dt == "inthuge":
+        col = rng.integers(2 ** 62, 2 ** 63 - 1, n) if rng.random() < 0.5 else rng.integers(-2 ** 63, -2 ** 62, n)
+        if m <= 40:
+            col = col[rng.integers(0, max(1, min(n, m)), n)]
+    elif dt == "uint64":
+        col = rng.integers(2 ** 63, 2 ** 64 - 1, n, dtype="uint64")
+    else:  # "dts"
+        col = (pd.Timestamp("1999-12-31 23:00") + pd.to_timedelta(rng.integers(0, m, n), unit="s")).values.astype("datetime64[s]")
+    ser = pd.Series(col)
+    order = case["order"]
+    if order in ("sorted", "reversed", "blocks"):
+        ser = ser.sort_values(ascending=order != "reversed", kind="stable").reset_index(drop=True)
+        if order == "blocks" and n:
+            nb = max(1, min(case["parts_in"], n))
+            pieces = np.array_split(np.arange(n), nb)
+            perm = rng.permutation(nb)
+            ser = ser.iloc[np.concatenate([pieces[p] for p in perm])].reset_index(drop=True)
+    return ser
+
+
+def _check_divisions(ctx, api, feat, divs, lo, hi, detail, key=None):
     ctx.count("quantile_divisions_checked")
     try:
         divs = list(divs)
+        if key is not None:          # ordered categorical: compare in the category order
+            shown_divs = divs
+            divs = [key[d] for d in divs]
+            lo, hi = key[lo], key[hi]
         if len(divs) < 2:
             ctx.violation("quantile:%s:%s:fewer-than-two-divisions" % (api, feat), repr(divs), **detail)
             return
@@ -382,7 +522,7 @@ def _check_divisions(ctx, api, feat, divs, lo, hi, detail):
         ctx.violation("quantile:%s:%s:divisions-not-comparable-with-data" % (api, feat),
                       "%s: %s; divisions=%r" % (type(e).__name__, e, divs), **detail)
         return
-    shown = [repr(d) for d in divs[:25]]
+    shown = [repr(d) for d in (divs if key is None else shown_divs)[:25]]
     if dec:
         ctx.violation("quantile:%s:%s:divisions-decrease" % (api, feat),
                       "divisions[%d]=%r > divisions[%d]=%r" % (dec[0], divs[dec[0]], dec[0] + 1, divs[dec[0] + 1]),
@@ -403,10 +543,20 @@ def _run_quantile(case, ctx):
     col = _column(case)
     n = len(col)
     df = pd.DataFrame({"k": col, "v": np.arange(n)})
+    if n == 0 and case["dtype"] == "catord":
+        df["k"] = pd.Categorical([], categories=["a"], ordered=True)
     lo, hi = df["k"].min(), df["k"].max()
     dt = case["dtype"]
     feat = {"intdup": "int", "intwide": "int", "float": "float", "floatdup": "float", "str": "str",
-            "dt": "datetime", "dtdup": "datetime"}[dt]
+            "dt": "datetime", "dtdup": "datetime", "tz": "datetime-tz", "tzwest": "datetime-tz", "dts": "datetime-s",
+            "catord": "ordered-categorical", "td": "timedelta", "Int64": "nullable-int", "inthuge": "int-beyond-2**53",
+            "uint64": "int-beyond-2**53"}.get(dt, dt)
+    key = None
+    if dt == "catord":
+        key = {c: i for i, c in enumerate(df["k"].cat.categories)}
+    if dt in NEW_Q_DTYPES:
+        ctx.count("quantile_new_dtype")
+    how = case.get("other", "name")
     ctx.nontrivial = n >= 2
     ctx.op("quantile:" + dt)
     ctx.op("quantile:order=" + case["order"])
@@ -444,7 +594,14 @@ def _run_quantile(case, ctx):
         kw["upsample"] = case["upsample"]
     ctx.count("quantile_set_index")
     try:
-        res = ddf.set_index("k", **kw)
+        if how == "series":
+            ctx.count("set_index_other_series")
+            res = ddf.set_index(ddf["k"], **kw)
+        elif how == "list":
+            ctx.count("set_index_other_list")
+            res = ddf.set_index(["k"], **kw)
+        else:
+            res = ddf.set_index("k", **kw)
         divs = res.divisions
     except NotImplementedError as e:
         ctx.unsupported(str(e))
@@ -458,7 +615,7 @@ def _run_quantile(case, ctx):
         sample["set_index_divisions"] = "unknown"
     elif divs is not None:
         ctx.count("set_index_quantile_divisions")
-        _check_divisions(ctx, "set_index", feat, divs, lo, hi, dict(detail, kwargs=kw, order=case["order"]))
+        _check_divisions(ctx, "set_index", feat, divs, lo, hi, dict(detail, kwargs=kw, order=case["order"], other=how), key=key)
         sample["set_index_divisions"] = [repr(d) for d in divs[:8]]
     # --- the quantile expression itself
     m = case["out"] if case["out"] is not None else ddf.npartitions
@@ -471,14 +628,119 @@ def _run_quantile(case, ctx):
     if q is not None:
         qv = list(q)
         _check_divisions(ctx, "repartition_quantiles", feat, qv, lo, hi,
-                         dict(detail, npartitions=m, upsample=case["upsample"], random_state=case["rs"]))
+                         dict(detail, npartitions=m, upsample=case["upsample"], random_state=case["rs"]), key=key)
         sample["quantiles"] = [repr(d) for d in qv[:8]]
     ctx.sample = sample
+
+
+# --------------------------------------------------------------------------- from_pandas facet
+def _run_from_pandas(case, ctx):
+    """The division planner as from_pandas applies it: ``dd.from_pandas(frame, npartitions | chunksize, sort)`` on an index
+    of the generated values; the four rules are read off the published divisions and the partitions of the graph."""
+    import dask
+    import numpy as np
+    import pandas as pd
+    import dask.dataframe as dd
+
+    dt = case["dtype"]
+    n = case["n"]
+    if dt == "range":
+        ref = list(range(n))
+        idx = pd.RangeIndex(n)
+    else:
+        ref = _rand_sorted(dict(case, dtype=dt))
+        n = len(ref)
+        idx = _container(ref, "strobj" if dt == "str" and case["dseed"] % 2 else dt, "index")
+    nd = len(set(ref))
+    prng = np.random.default_rng(case["dseed"] ^ 0x77)
+    if case["order"] == "shuffled" and dt != "range":
+        idx = idx[prng.permutation(n)]
+    elif case["order"] == "reversed" and dt != "range":
+        idx = idx[::-1]
+    mono = bool(idx.is_monotonic_increasing)
+    df = pd.DataFrame({"v": np.arange(n)}, index=idx)
+    obj = df["v"] if case["series"] else df
+    by, k, sort = case["by"], case["k"], bool(case["sort"])
+    dups = nd < n
+    ctx.nontrivial = n >= 2
+    ctx.op("from_pandas:" + dt)
+    ctx.op("from_pandas:%s&sort=%s&%s" % (by, sort, "monotonic" if mono else "unsorted"))
+    ctx.distinct("from_pandas_index_dtypes", str(idx.dtype))
+    ctx.count("from_pandas_calls")
+    ctx.count("from_pandas_%s_calls" % by)
+    if dups:
+        ctx.count("from_pandas_index_with_duplicates")
+    feat = "%s&%s" % (by, "dups" if dups else "no-dups")
+    if by == "npartitions":
+        feat += "&k<=distinct" if k <= nd else "&k>distinct"
+    feat += "&sort=%s&%s-index" % (sort, "monotonic" if mono else "unsorted")
+    detail = {"index_dtype": str(idx.dtype), "n": n, "distinct": nd, by: k, "sort": sort, "first_values": [repr(v) for v in list(idx[:12])]}
+    try:
+        ddf = dd.from_pandas(obj, sort=sort, **{by: k})
+        divs = tuple(ddf.divisions)
+        parts = dask.compute(*ddf.to_delayed(), scheduler="sync")
+    except NotImplementedError as e:
+        ctx.unsupported(str(e))
+        return
+    except Exception as e:  # noqa: BLE001
+        ctx.exception(e, prefix="from_pandas:" + feat + "&" + dt, **detail)
+        return
+    idxs = [list(p.index) for p in parts]
+    lens = [len(x) for x in idxs]
+    detail.update(divisions=[repr(d) for d in divs[:30]], partition_lengths=lens[:30])
+    ctx.sample = {"feat": feat, "dtype": dt, "divisions": [repr(d) for d in divs[:6]], "partition_lengths": lens[:8]}
+    if len(divs) != len(parts) + 1:
+        ctx.violation("from_pandas:%s:divisions-and-partitions-differ-in-number" % feat,
+                      "%d divisions, %d partitions" % (len(divs), len(parts)), **detail)
+        return
+    unknown = all(d is None for d in divs)
+    if not sort and (unknown or not mono):
+        # documented: without sorting all divisions are None (the planner is not involved); on an index that happens to
+        # be monotonic the implementation plans divisions nevertheless -- checked below when it does
+        ctx.count("from_pandas_unsorted_without_sort" if not mono else "from_pandas_sort_false_unknown_divisions")
+        if not unknown:
+            ctx.violation("from_pandas:%s:divisions-published-for-unsorted-rows" % feat, "divisions %r" % (divs[:10],), **detail)
+        return
+    if unknown and n:
+        ctx.violation("from_pandas:%s:no-divisions-planned" % feat, "sort=True is documented to give known divisions; got %r" % (divs[:10],), **detail)
+        return
+    ctx.count("from_pandas_planned_divisions")
+    if not mono:
+        ctx.count("from_pandas_sorted_by_from_pandas")
+    # locations strictly increase from 0 to len: every partition holds rows and all rows are there, in index order
+    flat = [v for x in idxs for v in x]
+    if sum(lens) != n or any(l == 0 for l in lens):
+        ctx.violation("from_pandas:%s:locations-not-strictly-increasing-from-0-to-len" % feat,
+                      "partition lengths %r for %d rows" % (lens[:30], n), **detail)
+        return
+    if not all(a == b for a, b in zip(flat, ref)):
+        ctx.violation("from_pandas:%s:partitions-not-the-sorted-index" % feat,
+                      "the partitions do not concatenate to the sorted index values", **detail)
+        return
+    bad = [i for i in range(len(parts)) if not divs[i] == idxs[i][0]]
+    if bad:
+        ctx.violation("from_pandas:%s:division-not-value-at-location" % feat,
+                      "divisions[%d]=%r but partition %d starts with %r" % (bad[0], divs[bad[0]], bad[0], idxs[bad[0]][0]), **detail)
+    elif not divs[-1] == idxs[-1][-1]:
+        ctx.violation("from_pandas:%s:last-division-not-last-value" % feat,
+                      "divisions[-1]=%r, last index value %r" % (divs[-1], idxs[-1][-1]), **detail)
+    ctx.count("from_pandas_boundaries_checked", len(parts) - 1)
+    strad = [i for i in range(len(parts) - 1) if idxs[i][-1] == idxs[i + 1][0]]
+    if strad:
+        ctx.violation("from_pandas:%s:equal-values-straddle-boundary" % feat,
+                      "index value %r ends partition %d and starts partition %d" % (idxs[strad[0]][-1], strad[0], strad[0] + 1), **detail)
+    if by == "npartitions" and k <= nd:
+        ctx.count("from_pandas_npartitions_exact_checked")
+        if len(parts) != k or ddf.npartitions != k:
+            ctx.violation("from_pandas:%s:npartitions-not-met" % feat,
+                          "asked %d partitions with %d distinct index values, got %d (reports %d)" % (k, nd, len(parts), ddf.npartitions), **detail)
 
 
 def run_case(case, ctx):
     if case["facet"] == "quantile":
         _run_quantile(case, ctx)
+    elif case["facet"] == "from_pandas":
+        _run_from_pandas(case, ctx)
     elif case.get("rand"):
         _run_sdl_random(case, ctx)
     else:
